@@ -250,6 +250,13 @@ class UnusedTranslator:
                 UniqueVariables(rules[0]), prg.index(rules[0]), list(hlit.atom.symbol.arguments), blit.atom.symbol
             )
 
+        # a copy rule whose body predicate is itself replaced in this round has to wait for the next round
+        mapping = {
+            head: mapper
+            for head, mapper in mapping.items()
+            if Predicate(mapper.symbol.name, len(mapper.symbol.arguments)) not in mapping
+        }
+
         used: set[int] = set()
 
         def convert(atom: AST) -> AST:
